@@ -289,11 +289,9 @@ func Run[S any](t *testing.T, p Prop[S]) {
 		}
 		fresh := rec.finish(&p, s, c, raw, true)
 		if len(fresh) > 0 {
-			var sb strings.Builder
-			for _, v := range fresh {
-				fmt.Fprintf(&sb, "[%s] %s\n", v.Sig, v.What)
-			}
-			rt.Fatalf("property %s violated:\n%s", p.ID, sb.String())
+			// the message must be a pure function of the input: rapid only shrinks when a re-run yields the identical
+			// error string, so details (stack traces, pointers) go to the replay file, not here
+			rt.Fatalf("property %s violated: [%s]", p.ID, fresh[0].Sig)
 		}
 	})
 }
